@@ -353,7 +353,9 @@ func (s *Spec) Step(ctx context.Context, st *State, pending interface{}, c *Cont
 		if bs == nil {
 			bs = NewBindings()
 		}
-		bs, _ = bs.Extendm("error", "Action node followed no branch",
+		// Extend a copy: a native action can hand back the very
+		// map it was given, which belongs to the caller.
+		bs, _ = bs.Copy().Extendm("error", "Action node followed no branch",
 			"lastNode", givenState.NodeName,
 			"lastBindings", map[string]interface{}(givenState.Bs.Copy()))
 		stride.To = &State{
